@@ -1254,7 +1254,7 @@ func init() {
 			return sc.Exec(env, p)
 		},
 		Quick: sim.Budget{Runs: 96, WallS: 80}, Thorough: sim.Budget{Runs: 6000, WallS: 1200},
-		LevelText: "a follower chain (own chain.Chain and PNodeDB on its own simulated disk) receives every block of the primary (key-churn workload: a sim-owned registered contract inserts, deletes and re-inserts identical and different values under fixed keys through the real StateContext within one transaction, within one block and in later blocks; plus sends, faucet pours and arbitrary contract calls), executes it with Block.ComputeState or syncs it with ApplyBlockStateChange, and finalises it through the shipped workers: Chain.FinalizeRound -> FinalizeRoundWorker -> finalizeRound (ComputeFinalizedBlock, 3-confirmation rule) -> FinalizedBlockWorker -> finalizeBlockProcess -> finalizeBlock (SaveChanges, RecordDeadNodes(ClientState.GetDeletes(), round), StoreLFBRound) with a sim BlockStateHandler/ViewChanger; pruning runs in the shipped PruneClientStateWorker on the fake clock of a synctest bubble (pruneClientState with its ring walk / alignment to rounds divisible by 100 -> PNodeDB.PruneBelowVersion; prune_below_count 1..12 from the plan; runs of 105..140 rounds reach the aligned round 100, shorter runs reach pruning through restarts); the follower's disk crashes at plan-chosen write boundaries inside SaveChanges, RecordDeadNodes, StoreLFBRound, the node-deletion batches and the dead-node-record deletion of PruneBelowVersion (or returns one I/O error there, except in SaveChanges), a partial state sync (Chain.SyncPartialState -> PartialState.SaveState) stores the root and a few top nodes of a block's state before the block is finalised; the follower restarts from its disk alone at the LFB record the shipped code stored, re-executes and keeps finalising and pruning. Oracle: after every prune and every restart each finalised block at or above the prune round — at least every block from LFB - prune_below_count on — is walked completely against the persistent node DB alone and must equal the model state captured when the primary assembled it",
+		LevelText: "a follower chain (own chain.Chain and PNodeDB on its own simulated disk) receives every block of the primary (key-churn workload: a sim-owned registered contract inserts, deletes and re-inserts identical and different values under fixed keys through the real StateContext within one transaction, within one block and in later blocks; plus sends, faucet pours and arbitrary contract calls), executes it with Block.ComputeState or syncs it with ApplyBlockStateChange, and finalises it through the shipped workers: Chain.FinalizeRound -> FinalizeRoundWorker -> finalizeRound (ComputeFinalizedBlock, 3-confirmation rule) -> FinalizedBlockWorker -> finalizeBlockProcess -> finalizeBlock (SaveChanges, RecordDeadNodes(ClientState.GetDeletes(), round), StoreLFBRound) with a sim BlockStateHandler/ViewChanger; pruning runs in the shipped PruneClientStateWorker on the fake clock of a synctest bubble (pruneClientState with its ring walk / alignment to rounds divisible by 100 -> PNodeDB.PruneBelowVersion; prune_below_count 1..12 from the plan; runs of 105..140 rounds reach the aligned round 100, shorter runs reach pruning through restarts); the follower's disk crashes at plan-chosen write boundaries inside SaveChanges, RecordDeadNodes, StoreLFBRound, the node-deletion batches and the dead-node-record deletion of PruneBelowVersion (or returns one I/O error there, except in SaveChanges), a partial state sync (Chain.SyncPartialState -> PartialState.SaveState) stores the root and a few top nodes of a block's state before the block is finalised; the round of the LFB is re-finalised with a sibling block (empty or with other transactions) after the follower came back one block earlier; the follower restarts from its disk alone at the LFB record the shipped code stored, re-executes and keeps finalising and pruning. Oracle: after every prune and every restart each finalised block at or above the prune round — at least every block from LFB - prune_below_count on — is walked completely against the persistent node DB alone and must equal the model state captured when the primary assembled it",
 		LevelNote: "the real finalize and prune workers run (no fallback); additionally the plan issues direct PNodeDB.PruneBelowVersion calls at seeded versions <= LFB. Consensus facts (one notarized block per round, rank 0) are sim-owned. Crash points inside PruneBelowVersion are placed only where a failing write cannot leave its iterator goroutine blocked on its channel (a goroutine blocked forever would abort the synctest bubble): the last node batch, the dead-record deletion, and 1000-key batches with at most one record left. No I/O errors (only crashes) are injected in SaveChanges: util.MerklePatriciaTrie.SaveChanges selects between its error and its done channel when both are ready, so whether a failed write is reported is decided by the Go runtime's unseedable choice (a failed save reported as success was seen once, not replayable, not claimed). Which blocks count as saved is read off the disk. Power loss (lost unsynced suffix) is not injected: the code never syncs. The MPT change collector and PNodeDB live in github.com/0chain/common (outside /repo): /repo decides which block's deletes are recorded under which round and which version is pruned",
 		Technique: "deterministic simulation: key-churn workload, crash/restart and I/O-error faults at disk-write boundaries, fake clock for the shipped workers, full-state read-back oracle against a model",
 		DesignRef: "6/C27", Regime: "single-threaded event loop inside a testing/synctest bubble; the shipped worker goroutines run to quiescence (synctest.Wait) after every step",
